@@ -1,0 +1,21 @@
+//! Verification hooks (cargo feature `verif-hooks`, off by default; add-only).
+//!
+//! H1: a thread-local sink receiving a copy of every program handed to the optimiser by
+//! `CodeGenerator::finalize`, so that an external harness can compare the program before
+//! and after optimisation.
+
+use std::cell::RefCell;
+use uplc::ast::{Name, Program};
+
+thread_local! {
+    static PRE_OPTIMISATION: RefCell<Vec<Program<Name>>> = const { RefCell::new(Vec::new()) };
+}
+
+pub fn record_pre_optimisation(program: &Program<Name>) {
+    PRE_OPTIMISATION.with(|sink| sink.borrow_mut().push(program.clone()));
+}
+
+/// Take everything recorded on this thread since the last call.
+pub fn drain_pre_optimisation() -> Vec<Program<Name>> {
+    PRE_OPTIMISATION.with(|sink| std::mem::take(&mut *sink.borrow_mut()))
+}
